@@ -131,7 +131,10 @@ static void do_lane(vh::Out &o, long long ci, const std::vector<std::string> &t)
 static void do_mat(vh::Out &o, long long ci, const std::vector<std::string> &t)
 {
     const std::string &k = t[1];
-    bool inplace = t[0].size() > 4 && t[0].substr(4) == "ca"; // the output register is the first state register
+    // the output register is one of the state registers: @ca first, @c1 second, @c2 third
+    std::string tag = t[0].size() > 4 ? t[0].substr(4) : "";
+    int al = tag == "ca" ? 1 : (tag == "c1" ? 2 : (tag == "c2" ? 3 : 0));
+    bool inplace = al != 0;
     bool is512 = k.find("512") != std::string::npos;
     size_t ns = atoi(t[2].c_str());
     alignas(64) uint64_t s[24] = {0};
@@ -157,12 +160,12 @@ static void do_mat(vh::Out &o, long long ci, const std::vector<std::string> &t)
         Goldilocks::load_avx(a2, (E *)&s[8]);
         if (k == "dot_avx") { r[0] = Goldilocks::dot_avx(a0, a1, a2, (E *)m).fe; nr = 1; }
         else if (k == "dot_avx_a") { r[0] = Goldilocks::dot_avx_a(a0, a1, a2, (E *)m).fe; nr = 1; }
-        else if (k == "spmv_avx_4x12") { if (inplace) { Goldilocks::spmv_avx_4x12(a0, a0, a1, a2, (E *)m); c = a0; } else Goldilocks::spmv_avx_4x12(c, a0, a1, a2, (E *)m); Goldilocks::store_avx((E *)r, c); nr = 4; }
-        else if (k == "spmv_avx_4x12_a") { if (inplace) { Goldilocks::spmv_avx_4x12_a(a0, a0, a1, a2, (E *)m); c = a0; } else Goldilocks::spmv_avx_4x12_a(c, a0, a1, a2, (E *)m); Goldilocks::store_avx((E *)r, c); nr = 4; }
-        else if (k == "spmv_avx_4x12_8") { if (inplace) { Goldilocks::spmv_avx_4x12_8(a0, a0, a1, a2, (E *)m); c = a0; } else Goldilocks::spmv_avx_4x12_8(c, a0, a1, a2, (E *)m); Goldilocks::store_avx((E *)r, c); nr = 4; }
-        else if (k == "mmult_avx_4x12") { if (inplace) { Goldilocks::mmult_avx_4x12(a0, a0, a1, a2, (E *)m); c = a0; } else Goldilocks::mmult_avx_4x12(c, a0, a1, a2, (E *)m); Goldilocks::store_avx((E *)r, c); nr = 4; }
-        else if (k == "mmult_avx_4x12_a") { if (inplace) { Goldilocks::mmult_avx_4x12_a(a0, a0, a1, a2, (E *)m); c = a0; } else Goldilocks::mmult_avx_4x12_a(c, a0, a1, a2, (E *)m); Goldilocks::store_avx((E *)r, c); nr = 4; }
-        else if (k == "mmult_avx_4x12_8") { if (inplace) { Goldilocks::mmult_avx_4x12_8(a0, a0, a1, a2, (E *)m); c = a0; } else Goldilocks::mmult_avx_4x12_8(c, a0, a1, a2, (E *)m); Goldilocks::store_avx((E *)r, c); nr = 4; }
+        else if (k == "spmv_avx_4x12") { { auto &dst = al == 1 ? a0 : (al == 2 ? a1 : (al == 3 ? a2 : c)); Goldilocks::spmv_avx_4x12(dst, a0, a1, a2, (E *)m); c = dst; } Goldilocks::store_avx((E *)r, c); nr = 4; }
+        else if (k == "spmv_avx_4x12_a") { { auto &dst = al == 1 ? a0 : (al == 2 ? a1 : (al == 3 ? a2 : c)); Goldilocks::spmv_avx_4x12_a(dst, a0, a1, a2, (E *)m); c = dst; } Goldilocks::store_avx((E *)r, c); nr = 4; }
+        else if (k == "spmv_avx_4x12_8") { { auto &dst = al == 1 ? a0 : (al == 2 ? a1 : (al == 3 ? a2 : c)); Goldilocks::spmv_avx_4x12_8(dst, a0, a1, a2, (E *)m); c = dst; } Goldilocks::store_avx((E *)r, c); nr = 4; }
+        else if (k == "mmult_avx_4x12") { { auto &dst = al == 1 ? a0 : (al == 2 ? a1 : (al == 3 ? a2 : c)); Goldilocks::mmult_avx_4x12(dst, a0, a1, a2, (E *)m); c = dst; } Goldilocks::store_avx((E *)r, c); nr = 4; }
+        else if (k == "mmult_avx_4x12_a") { { auto &dst = al == 1 ? a0 : (al == 2 ? a1 : (al == 3 ? a2 : c)); Goldilocks::mmult_avx_4x12_a(dst, a0, a1, a2, (E *)m); c = dst; } Goldilocks::store_avx((E *)r, c); nr = 4; }
+        else if (k == "mmult_avx_4x12_8") { { auto &dst = al == 1 ? a0 : (al == 2 ? a1 : (al == 3 ? a2 : c)); Goldilocks::mmult_avx_4x12_8(dst, a0, a1, a2, (E *)m); c = dst; } Goldilocks::store_avx((E *)r, c); nr = 4; }
         else if (k == "mmult_avx" || k == "mmult_avx_a" || k == "mmult_avx_8")
         {
             if (k == "mmult_avx") Goldilocks::mmult_avx(a0, a1, a2, (E *)m);
@@ -183,10 +186,10 @@ static void do_mat(vh::Out &o, long long ci, const std::vector<std::string> &t)
         Goldilocks::load_avx512(a1, (E *)&s[8]);
         Goldilocks::load_avx512(a2, (E *)&s[16]);
         if (k == "dot_avx512") { E d[2]; Goldilocks::dot_avx512(d, a0, a1, a2, (E *)m); r[0] = d[0].fe; r[1] = d[1].fe; nr = 2; }
-        else if (k == "spmv_avx512_4x12") { if (inplace) { Goldilocks::spmv_avx512_4x12(a0, a0, a1, a2, (E *)m); c = a0; } else Goldilocks::spmv_avx512_4x12(c, a0, a1, a2, (E *)m); Goldilocks::store_avx512((E *)r, c); nr = 8; }
-        else if (k == "spmv_avx512_4x12_8") { if (inplace) { Goldilocks::spmv_avx512_4x12_8(a0, a0, a1, a2, (E *)m); c = a0; } else Goldilocks::spmv_avx512_4x12_8(c, a0, a1, a2, (E *)m); Goldilocks::store_avx512((E *)r, c); nr = 8; }
-        else if (k == "mmult_avx512_4x12") { if (inplace) { Goldilocks::mmult_avx512_4x12(a0, a0, a1, a2, (E *)m); c = a0; } else Goldilocks::mmult_avx512_4x12(c, a0, a1, a2, (E *)m); Goldilocks::store_avx512((E *)r, c); nr = 8; }
-        else if (k == "mmult_avx512_4x12_8") { if (inplace) { Goldilocks::mmult_avx512_4x12_8(a0, a0, a1, a2, (E *)m); c = a0; } else Goldilocks::mmult_avx512_4x12_8(c, a0, a1, a2, (E *)m); Goldilocks::store_avx512((E *)r, c); nr = 8; }
+        else if (k == "spmv_avx512_4x12") { { auto &dst = al == 1 ? a0 : (al == 2 ? a1 : (al == 3 ? a2 : c)); Goldilocks::spmv_avx512_4x12(dst, a0, a1, a2, (E *)m); c = dst; } Goldilocks::store_avx512((E *)r, c); nr = 8; }
+        else if (k == "spmv_avx512_4x12_8") { { auto &dst = al == 1 ? a0 : (al == 2 ? a1 : (al == 3 ? a2 : c)); Goldilocks::spmv_avx512_4x12_8(dst, a0, a1, a2, (E *)m); c = dst; } Goldilocks::store_avx512((E *)r, c); nr = 8; }
+        else if (k == "mmult_avx512_4x12") { { auto &dst = al == 1 ? a0 : (al == 2 ? a1 : (al == 3 ? a2 : c)); Goldilocks::mmult_avx512_4x12(dst, a0, a1, a2, (E *)m); c = dst; } Goldilocks::store_avx512((E *)r, c); nr = 8; }
+        else if (k == "mmult_avx512_4x12_8") { { auto &dst = al == 1 ? a0 : (al == 2 ? a1 : (al == 3 ? a2 : c)); Goldilocks::mmult_avx512_4x12_8(dst, a0, a1, a2, (E *)m); c = dst; } Goldilocks::store_avx512((E *)r, c); nr = 8; }
         else if (k == "mmult_avx512" || k == "mmult_avx512_8")
         {
             if (k == "mmult_avx512") Goldilocks::mmult_avx512(a0, a1, a2, (E *)m);
@@ -206,6 +209,7 @@ static void do_mat(vh::Out &o, long long ci, const std::vector<std::string> &t)
     o.num("ci", ci);
     o.str("k", k);
     o.boolean("inplace", inplace);
+    o.num("al", al);
     o.w64arr("s", s, ns);
     o.w64arr("m", m, nm);
     o.w64arr("r", r, nr);
